@@ -11,6 +11,10 @@
 (* codes are whatever integers the driver used, so runs with dozens of arbiters, negative codes or  *)
 (* several Systems on one OS thread (one reset..End segment per System) are judged by the same       *)
 (* predicates without any model bound.                                                               *)
+(* "RunCall" (run() / run_with_code() is entered) and "Polled" (the driver is about to call          *)
+(* SystemRunner::block_on) bound the stretch in which stop calls are known to be buffered together   *)
+(* (H_SysStopEnd); "LoopEndSeen" is written by the destructor of a guard owned by a task that never  *)
+(* completes, on a worker arbiter (H_LoopEnd).                                                        *)
 EXTENDS RtProps, Json, IOUtils, TLC, TLCExt
 
 Rec == ndJsonDeserialize(IOEnv.TRACE)
@@ -20,6 +24,7 @@ R == Rec[l + 1]
 
 Summary == [order |-> NT_Order, started |-> NT_Started, afterStop |-> NT_AfterStop, afterGone |-> NT_AfterGone,
             mustStop |-> NT_MustStop, twoStops |-> NT_TwoStops, early |-> NT_Early,
+            laterStop |-> NT_LaterStop, loopEndSeen |-> NT_LoopEndSeen,
             selfSend |-> NT_SelfSend, echo |-> NT_Echo, negCode |-> NT_NegCode, ncreated |-> Cardinality(h.created),
             nmust |-> Cardinality(h.mustStop), ncands |-> Cardinality(h.run.cands),
             sends |-> Cardinality(DOMAIN h.snd), starts |-> Cardinality(AllStarts),
@@ -37,8 +42,11 @@ Apply(r) ==
     [] r.ev = "TaskStart"     -> H_TaskStart(h, r.id, r.arb, r.tid, r.cur, r.sysid)
     [] r.ev = "Echo"          -> H_Echo(h, r.arb, r.tid)
     [] r.ev = "EchoSend"      -> H_EchoSend(h, r.arb, r.ok)
-    [] r.ev = "SysStopStart"  -> H_SysStopStart(h, r.code)
-    [] r.ev = "SysStopEnd"    -> H_SysStopEnd(h)
+    [] r.ev = "SysStopStart"  -> H_SysStopStart(h, r.code, r.tid)
+    [] r.ev = "SysStopEnd"    -> H_SysStopEnd(h, r.tid)
+    [] r.ev = "RunCall"       -> H_RunCall(h)
+    [] r.ev = "Polled"        -> H_Polled(h)
+    [] r.ev = "LoopEndSeen"   -> H_LoopEnd(h, r.arb)
     [] r.ev \in {"JoinReturned", "GoneObserved"} -> H_Join(h, r.arb, TRUE)
     [] r.ev \in {"JoinTimeout", "GoneTimeout"}   -> H_Join(h, r.arb, FALSE)
     [] r.ev = "RunReturned"   -> IF "coded" \in DOMAIN r /\ ~r.coded THEN H_RunRetNoCode(h, r.api)
